@@ -210,8 +210,24 @@ static void ransac_case(vh::Ctx & c, vh::Rng & r, const char * tname)
   // pair i is (i, perm[i]); 2: as 1 and the list of pairs itself is in arbitrary order
   // (drawn from a separate stream so that the point sets of a case do not depend on the layout)
   vh::Rng rl(c.seed, c.cur, 7);
-  const int layout = (int)rl.range(0, 2);
-  if (layout >= 1) {
+  const int layout = (int)rl.range(0, 3);
+  if (layout == 3) {
+    // 3: the two clouds hold more points than there are pairs (unmatched points anywhere in the
+    // same 20 m box) and the pairs name arbitrary positions in them, in arbitrary list order
+    const int N = n + (int)rl.range(1, 2 * n);
+    std::vector<int> si(N), ti(N);
+    for (int i = 0; i < N; ++i) {si[i] = i; ti[i] = i;}
+    for (int i = N; i > 1; --i) {std::swap(si[i - 1], si[rl.range(0, i - 1)]); std::swap(ti[i - 1], ti[rl.range(0, i - 1)]);}
+    PointSet<P> Sb(N), Tb(N);
+    for (int i = 0; i < N; ++i) {
+      VecL u(D), v(D);
+      for (int k = 0; k < D; ++k) {u(k) = rl.uni(-10, 10); v(k) = rl.uni(-10, 10);}
+      Sb[i] = make_point<P>(u); Tb[i] = make_point<P>(v);
+    }
+    for (int i = 0; i < n; ++i) {Sb[si[i]] = Sx[i]; Tb[ti[i]] = Tg[i]; C[i] = Correspondence(si[i], ti[i]);}
+    for (int i = n; i > 1; --i) {std::swap(C[i - 1], C[rl.range(0, i - 1)]);}
+    Sx = Sb; Tg = Tb;
+  } else if (layout >= 1) {
     std::vector<int> perm(n);
     for (int i = 0; i < n; ++i) {perm[i] = i;}
     for (int i = n; i > 1; --i) {std::swap(perm[i - 1], perm[rl.range(0, i - 1)]);}
@@ -246,7 +262,7 @@ static void ransac_case(vh::Ctx & c, vh::Rng & r, const char * tname)
     };
   c.cat(std::string("ransac_") + tname);
   if (coherent) {c.cat("ransac_coherent_outlier_group");}
-  c.cat(layout == 0 ? "ransac_pairs_index_aligned" : (layout == 1 ? "ransac_pairs_permuted_target" : "ransac_pairs_permuted_and_shuffled_list"));
+  c.cat(layout == 0 ? "ransac_pairs_index_aligned" : (layout == 1 ? "ransac_pairs_permuted_target" : (layout == 2 ? "ransac_pairs_permuted_and_shuffled_list" : "ransac_pairs_inside_larger_clouds")));
   if (layout >= 1 && nout == 0) {c.cat("ransac_permuted_pairs_no_outliers");}
   c.cat(nout == 0 ? "ransac_no_outliers" : ((double)nout / n < 0.05 ? "ransac_outliers_lt_5pct" : "ransac_outliers_5_to_30pct"));
   c.distinct(vh::hash_doubles({2.0, (double)D, (double)n, sigma, (double)nout, (double)ang, (double)t(0)}), (double)nout / n >= 0.05);
